@@ -248,3 +248,68 @@ CHECKS = {
 }
 
 NOT_APPLICABLE = {}
+
+
+# ---- session 3: levels after the proof deliveries P1–P5 (compPath, faithful-port theorems, splitter shape)
+CHECKS['C02'].update({
+    'text': "Theorems (Lean): a tidy path-mode compiler `compPath` (segments, separators, trailing separators, globstars with the divider "
+            "and need-separator fragments) is proved correct against the executable path specification for ALL path patterns in scope and "
+            "ALL paths: C02path_globfree (globstar-free: FullMatch(^(?s:compPath pp)$) s <-> pathLangR pp s on paths whose pieces are visible) "
+            "and C02path_glob (with `**`: zero or more whole visible pieces, separator discipline, trailing-separator rule); every excluded "
+            "case (D1p repeated-group guards, D3p `$` before a final newline, D8 `**/`, nullable segments) is a hypothesis with a "
+            "decide+kernel counterexample showing it is forced. Segment level: compSeg_start_sem (M(compSeg g) a b <-> Pat.L g a b and no '/' "
+            "consumed). The building blocks print to exactly the source constants (a changed constant breaks a proof). Tie: regex-TEXT equality "
+            "WcParse vs the faithful Lean port (K1), AST equality faithful port vs compPath on grammar patterns and every short string the strict "
+            "reader accepts (K1'-path), regex semantics (K2). Search: executable path specification vs globmatch/globfilter/compile, plus the "
+            "one-piece-per-segment theorem used as an oracle on the real code (nothing but a written separator matches '/').",
+    'note': TB + "PARTIAL: `!(...)` inside path segments and MATCHBASE are compiled by compPath and tied by K1' but excluded from the theorems "
+            "(negFree); Windows rules are sampled (K1 under FORCEWIN). The link faithful port <-> compPath is checked on sampled patterns, not "
+            "proved. Known findings KF-D1p (guards re-tested in repeated groups), KF-D3p ($ before a final newline).",
+    'technique': "Lean 4 compiler-correctness theorem for a tidy path-mode compiler (structural induction, fragment lemmas) + generated-constant "
+                 "render proofs + text/AST correspondence + path-spec and piece-count search",
+})
+CHECKS['C03'].update({
+    'text': "Theorems (Lean): (1) on the FAITHFUL PORT of WcParse, fnmatch mode, for EVERY string as a pattern (malformed ones included) and every "
+            "name beginning with '.': if the emitted regex fully matches the name without DOTMATCH, the pattern text begins with a written '.' (or "
+            "`\\.`) or with a successfully parsed extended group that can leak (C03_upper_faithful / _sharp: a leading `!(…)` never leaks; `+(`/`@(` "
+            "only through an empty alternative, a written dot or a nested group) — defect D5 is exactly the remaining disjunct, witnessed; (2) tidy "
+            "compiler: upper and lower bound (a pattern beginning with a written '.' matches exactly its documented language on every name); (3) path "
+            "mode: `*` at a segment start cannot consume a leading dot, `**` never steps over a separator followed by a dot. Search: Must ⊆ code ⊆ "
+            "May sandwich on grammar patterns; EVERY dot-free string <= 4 (5) over the metacharacter alphabet + mutations must reject every hidden "
+            "name (attribution to D4/D5 only by the item kinds the Lean port emits); real trees with hidden files / directories / dot-named links "
+            "through glob, iglob, Path.glob/rglob, WcMatch; K5 on those trees.",
+    'note': TB + "PARTIAL: for whole path patterns the hidden-name bounds are sampled (sandwich + all-strings + trees), proved fragment-wise and, "
+            "for all strings, in fnmatch mode. Open known findings KF-D4, KF-D5, KF-D6, KF-D15, KF-D1p (witnesses are decide+kernel theorems on the "
+            "faithful port).",
+    'technique': "Lean 4 theorem over all strings on the faithful parser model + tidy-compiler bounds + fragment lemmas; May/Must sandwich, "
+                 "exhaustive dot-free strings and real-tree search",
+})
+CHECKS['C05'].update({
+    'text': "Theorems (Lean): C05_partial_split — for EVERY pattern string and flag word, the parts `_GlobSplit` produces (model globSplit) satisfy "
+            "the shape facts the walker theorem needs (globSplit_WFParts / _drive / _litText; also: no '/' inside a literal part, adjacent globstars "
+            "only as the D6 base-part shape, non-empty parts), and for those parts the walker model returns exactly the paths the inductive "
+            "specification Denotes — for every tree, under hypotheses that exclude exactly the recorded defects (SegAgree: re.match vs full match, "
+            "D14; a literal first name followed by further parts names a directory, D17), no FOLLOW, fuel above the tree height. `**` = Below "
+            "(sound and complete); executable specification = declarative one. Tie: _GlobSplit parts, exact result sequence and exact os.scandir "
+            "call sequence on generated real trees (K5, incl. case-variant sibling directories under IGNORECASE); glob.glob vs the executable "
+            "specification on every tree/pattern; thorough: specification vs bash 5.2 (validation of the spec).",
+    'note': TB + "full statement false on this tree (open known findings KF-D14, KF-D17, KF-G2 with decide+kernel witnesses); the segment language "
+            "of a part is taken from its compiled regex (C01-C03). Bash cannot be a Lean object: labelled validation.",
+    'technique': "Lean 4 refinement theorem walker = Denotes (induction on parts and tree) with the splitter's output shape proved for all strings "
+                 "+ exact-sequence correspondence + spec-vs-glob search",
+})
+CHECKS['C10'].update({
+    'text': "Theorems over the faithful Lean port of WcParse, for EVERY string and EVERY configuration (path mode, Windows, translate, extglob ...): "
+            "every_string_compiles — the pass either raises the documented ValueError (only under _NOABSOLUTE) or returns items whose joined text "
+            "is a well-formed regex (parse_toRe_isSome: every `(?:(?!(?:...)` opening is closed, no stray placeholder; proved through the inv_ext "
+            "counter invariant incl. the repaired D9 behaviour and the overwrite-last-item path of `**`); parse_clsWF — every bracket expression "
+            "emitted anywhere is non-empty and has no reversed range (sequence_clsWF through the escape_hyphen/end_range bookkeeping; the attempt "
+            "to prove it found defect D29, repaired by a fix: commit and mirrored); the real Windows-drive function satisfies the drive hypothesis; "
+            "the executable matcher decides the declarative regex semantics. Tie: regex-TEXT equality on exhaustive short strings, bracket families "
+            "(incl. escaped range ends), parser-state token sequences, random/mutated strings (str, bytes, unix, windows, reachable flags); every "
+            "emitted regex is handed to re.compile; public APIs searched for undocumented exceptions.",
+    'note': TB + "that a well-formed AST (toRe != none, ClsWF) is accepted by re.compile is a modelling assumption validated on every sampled "
+            "pattern; POSIX class table text is not range-checked by ClsWF; RecursionError/interpreter limits are outside the model.",
+    'technique': "Lean 4 invariant proofs over all strings on a faithful parser model (well-formedness of the emitted regex, bracket ranges) + "
+                 "regex-text correspondence (K1) + re.compile and API exception search",
+})
